@@ -801,6 +801,8 @@ func VH_template(which int) {
 		toks = T(I, int(token.DOT), I, -1, I, -1, I, S)
 	case 22: // … and through an element target, with the property target in the middle:  a h b . p h c [ d ] h e ;
 		toks = T(I, -1, I, int(token.DOT), I, -1, I, int(token.LEFT_BRACKET), I, int(token.RIGHT_BRACKET), -1, I, S)
+	case 23: // stacked prefix operators, then a binary hole:  h h a h b ;
+		toks = T(-1, -1, I, -1, I, S)
 	case 19: // two ifs, two else positions:  if ( a ) if ( b ) c ; h d ; h e ;
 		toks = T(int(token.IF), LP, I, RP, int(token.IF), LP, I, RP, I, S, -1, I, S, -1, I, S)
 	case 20: // else-if ladder:  if ( a ) b ; else if ( c ) d ; h e ; h f ;
